@@ -3,7 +3,7 @@
 //                                                         LoadServerDataConf: 1 accepted, 0 error, -2 panic)
 //   [2 style gslb]                   -> [x]               GslbConfLoad
 //   [3 style ctable]                 -> [x]               ClusterTableLoad
-//   [9 loader rawbytes]              -> [x]               loader 1..7 on an arbitrary (mutated JSON) file
+//   [9 loader rawbytes]              -> [x]               loader 1..7 on an arbitrary (mutated JSON) file, 6 loads (-2 if any load panics)
 // Record shapes: harness/confload/confload.go.
 package main
 
@@ -62,16 +62,31 @@ func impl(in hv.Val) hv.Val {
 		vf := confload.WriteFile("vip_rule.data", confload.VipJSON(l[3], st))
 		rf := confload.WriteFile("route_rule.data", confload.RouteJSON(l[4], st))
 		cf := confload.WriteFile("cluster_conf.data", confload.ClusterJSON(l[5], st))
-		return hv.L{loader(1, hf), loader(2, vf), loader(3, rf), loader(4, cf),
+		out := hv.L{loader(1, hf), loader(2, vf), loader(3, rf), loader(4, cf),
 			guard(func() error { _, e := bfe_route.LoadServerDataConf(hf, vf, rf, cf); return e })}
+		for n := 0; n < 3; n++ { // more map iteration orders: a panic in any of them is reported
+			for k, f := range []string{hf, vf, rf, cf} {
+				if again := loader(int64(k+1), f); hv.String(again) == "-2" {
+					out[k] = again
+				}
+			}
+		}
+		return out
 	case 2:
 		st := confload.NewStyle(hv.AsInt(l[1]))
 		return hv.L{loader(5, confload.WriteFile("gslb.data", confload.GslbJSON(l[2], st)))}
 	case 3:
 		st := confload.NewStyle(hv.AsInt(l[1]))
 		return hv.L{loader(6, confload.WriteFile("cluster_table.data", confload.CtableJSON(l[2], st)))}
-	case 9:
-		return hv.L{loader(hv.AsInt(l[1]), confload.WriteFile("raw.data", string(hv.AsBytes(l[2]))))}
+	case 9: // loaded several times: a crash that depends on map iteration order must not slip through
+		path := confload.WriteFile("raw.data", string(hv.AsBytes(l[2])))
+		first := loader(hv.AsInt(l[1]), path)
+		for n := 0; n < 5; n++ {
+			if again := loader(hv.AsInt(l[1]), path); hv.String(again) == "-2" {
+				return hv.L{again}
+			}
+		}
+		return hv.L{first}
 	}
 	return hv.Err(0)
 }
@@ -104,7 +119,7 @@ func mutate(r *hv.Rng, c *confload.SDC) string {
 		return nil
 	}
 	cc := &cl[r.Intn(len(cl))].C
-	switch r.Intn(34) {
+	switch r.Intn(39) {
 	case 0:
 		c.Host.Ver = nil
 		return "m-host-noversion"
@@ -271,6 +286,29 @@ func mutate(r *hv.Rng, c *confload.SDC) string {
 	case 32:
 		c.Cluster.Cfg = nil
 		return "m-cluster-noconfig"
+	case 34: // an extra product whose tag list is JSON null, everything else well-formed
+		tags = append(tags, confload.KL{K: "p_null", L: nil})
+		c.Host.Tags = &tags
+		return "m-host-extra-null-product"
+	case 35: // ... and no host at all (the per-host loops of HostTableConfCheck do not run)
+		tags = append(tags, confload.KL{K: "p_null", L: nil})
+		c.Host.Tags = &tags
+		c.Host.Hosts = &[]confload.KL{}
+		return "m-host-empty-hosts-null-product"
+	case 36: // an extra host-tag whose host list is JSON null although the tag is listed under a product
+		hosts = append(hosts, confload.KL{K: "t_null", L: nil})
+		c.Host.Hosts = &hosts
+		l := append(append([]string(nil), *tags[0].L...), "t_null")
+		tags[0].L = &l
+		return "m-host-extra-null-hostlist"
+	case 37: // no hosts at all: accepted when nothing else refers to them
+		c.Host.Hosts = &[]confload.KL{}
+		return "host-empty-hosts"
+	case 38: // only the null product
+		c.Host.Tags = &[]confload.KL{{K: "p_null", L: nil}}
+		c.Host.Hosts = &[]confload.KL{}
+		c.Host.Def = nil
+		return "m-host-only-null-product"
 	case 33: // a vip under a product that host_rule.data does not define: not cross-checked by BFE
 		c.Vip.Vips = append(c.Vip.Vips, confload.VipP{P: "p_undefined", L: []string{"9.9.9.9"}})
 		return "vip-product-undefined"
@@ -461,7 +499,37 @@ func skipValue(s string, p int) int {
 	return len(s)
 }
 
+// systematic null / missing / empty enumeration over every field, map entry and slice element of the decoded types
+// (harness/confload/nullenum.go); combination number = case index, so the quick tier walks through all of them
+func genNull(r *hv.Rng, i int) (string, hv.Val) {
+	c, _ := confload.GenSDC(r, true)
+	st := confload.NewStyle(int64(r.Intn(1000)))
+	k := 1 + i%6
+	var txt string
+	switch k {
+	case 1:
+		txt = confload.HostJSON(c.Host.Val(), st)
+	case 2:
+		txt = confload.VipJSON(c.Vip.Val(), st)
+	case 3:
+		txt = confload.RouteJSON(c.Route.Val(), st)
+	case 4:
+		txt = confload.ClusterJSON(c.Cluster.Val(), st)
+	case 5:
+		_, g := genGslb(r)
+		txt = confload.GslbJSON(hv.AsList(g)[2], st)
+	default:
+		_, t := genCtable(r)
+		txt = confload.CtableJSON(hv.AsList(t)[2], st)
+	}
+	out, label := confload.NullCase(k, txt, i/6)
+	return "null-" + []string{"host", "vip", "route", "cluster", "gslb", "ctable"}[k-1] + "-" + label, hv.L{hv.I(9), hv.I(k), hv.S(out)}
+}
+
 func gen(r *hv.Rng, i int, tier string) (string, hv.Val) {
+	if i%3 == 0 {
+		return genNull(r, i/3)
+	}
 	switch k := r.Intn(20); {
 	case k < 2:
 		return genGslb(r)
